@@ -312,6 +312,20 @@ attempt("discinfo", di)
 def im():
     spec = IM.seed_one(); spec["images"][0]["subvariant"] = text; return IM.build(spec).dumps()
 attempt("images", im)
+# the JSON formats written to a PATH (their text is plain ASCII whatever the content, so the locale must not matter)
+import os, tempfile
+def to_path(make):
+    d = tempfile.mkdtemp(prefix="c06-")
+    try:
+        p = os.path.join(d, "out.json")
+        make().dump(p)
+        return open(p, "rb").read().decode("utf-8")
+    finally:
+        import shutil; shutil.rmtree(d, ignore_errors=True)
+attempt("composeinfo-to-path", lambda: to_path(lambda: CI.build(CI.apply_spec(CI.seed_flat(), ["rel", "name", text]))))
+def im_obj():
+    spec = IM.seed_one(); spec["images"][0]["subvariant"] = text; return IM.build(spec)
+attempt("images-to-path", lambda: to_path(im_obj))
 print("LOCALE " + json.dumps(out))
 """
 
@@ -362,15 +376,15 @@ def run_unit(unit, acc):
     if unit[0] == "locale":
         ref = eval_locale(None)
         o = eval_locale("C")
-        acc.ev(4)
+        acc.ev(6)
         acc.extra["ascii_locale_encoding"] = o["encoding"]
-        for fmt in ("composeinfo", "treeinfo", "discinfo", "images"):
+        for fmt in ("composeinfo", "treeinfo", "discinfo", "images", "composeinfo-to-path", "images-to-path"):
             acc.nontriv(("locale", fmt))
             if ref[fmt][0] != "ok":
                 raise RuntimeError("the non-ASCII %s object is not written even in UTF-8 mode: %s" % (fmt, ref[fmt]))
             if o[fmt] != ref[fmt]:
                 acc.violation("valid-refused:locale", {"kind": "locale", "lc": "C", "fmt": fmt}, {"differs_from_utf8_mode": True, "result": o[fmt][0]},
-                              "a valid %s object with non-ASCII text, written to a string in an interpreter whose locale encoding is %s: %s"
+                              "a valid %s object with non-ASCII text, written in an interpreter whose locale encoding is %s: %s"
                               % (fmt, o["encoding"], o[fmt][1] if o[fmt][0] != "ok" else "text differs from the one written in UTF-8 mode"))
             else:
                 acc.outcome("converse:written-under-ascii-locale")
